@@ -113,4 +113,36 @@ def streams(tier, rng, P, only=None, cases=None):
         return None
     def nt(c, impl, m): return impl[1].get("tracks") if impl[0] == "ok" and c["nres"] >= 1 and c["nnotes"] >= 3 else None
     s1 = Stream("reserve", cases if (cases and only == "reserve") else mk(), model, judge, nt, "reservation programs vs Model.Reserve")
-    return [s for s in (s1,) if only in (None, s.name)]
+    # ---- chords: a reserved velocity list is consumed by the members of a chord one by one, like by single notes — the program equals
+    #      the one with every velocity written at its note
+    def mk_ch():
+        cs = []
+        for i in range(1500 if big else 250):
+            items = []      # each item: list of note letters (1 = single note, >= 2 = chord)
+            for _ in range(rng.randrange(2, 6)):
+                items.append([rng.choice("cdefgab") for _ in range(rng.choice([1, 1, 2, 3, 4]))])
+            if all(len(it) == 1 for it in items): items[rng.randrange(len(items))] = ["c", "e", "g"]
+            nn = sum(len(it) for it in items)
+            cyc = rng.random() < 0.4
+            vals = [rng.randint(1, 127) for _ in range(rng.randint(2, 4) if cyc else nn + rng.randint(0, 2))]
+            head = "v.%s(%s)" % (rng.choice(["onCycle", "C"]) if cyc else rng.choice(["onNote", "N"]), ",".join(map(str, vals)))
+            k = 0; a = []; b = []
+            for it in items:
+                vs = [vals[(k + j) % len(vals)] for j in range(len(it))]; k += len(it)
+                if len(it) == 1:
+                    a.append(it[0]); b.append("%s,,%d" % (it[0], vs[0]))
+                else:
+                    ln = rng.choice(["", "4", "8"])
+                    a.append("'" + " ".join(it) + "'" + ln); b.append("'" + " ".join("%s,,%d" % (n_, v_) for n_, v_ in zip(it, vs)) + "'" + ln)
+            pre = rng.choice(["l4 ", "l8 q100 ", "o4 l4 "])
+            sa = pre + head + " " + " ".join(a); sb = pre + " ".join(b)
+            cs.append(dict(req="compile2 %s %s" % (hx(sa), hx(sb)), src=sa, src2=sb, show="%s   vs   %s" % (sa, sb), key="ch%d" % i))
+        return cs
+    def ch_judge(c, impl, m):
+        st, f = impl
+        if st != "ok": return ("violation", "reservation program did not compile normally: " + st)
+        if f["bin1"] != f["bin2"]: return ("violation", "a reserved velocity list over chords is not the program with the velocities written at the notes: %s vs %s" % (c["src"][:120], c["src2"][:120]))
+        return None
+    s2 = Stream("chordres", cases if (cases and only == "chordres") else mk_ch(), lambda c, st, f: [], ch_judge, lambda c, i, m: i[1].get("bin1") if i[0] == "ok" else None,
+                "velocity reservations over chords vs explicit velocities")
+    return [s for s in (s1, s2) if only in (None, s.name)]
